@@ -429,6 +429,14 @@ func Origins(v ssa.Value) (vals []ssa.Value, unknown bool) {
 				}
 			}
 			vals = append(vals, v)
+		case *ssa.Parameter:
+			// while a check is evaluated inside a helper (gate summaries), the helper's
+			// parameters stand for the arguments of the call being summarised
+			if b, ok := ParamBinding[x]; ok && b != nil {
+				walk(b)
+				return
+			}
+			vals = append(vals, v)
 		default:
 			vals = append(vals, v)
 		}
@@ -436,6 +444,10 @@ func Origins(v ssa.Value) (vals []ssa.Value, unknown bool) {
 	walk(v)
 	return
 }
+
+// ParamBinding maps parameters of a helper under summarisation to the
+// arguments of the summarised call site (set and restored by the gate engine).
+var ParamBinding = map[*ssa.Parameter]ssa.Value{}
 
 // zeroMarker stands for "the zero value of the cell" in an origin set.
 type zeroMarker struct{ t types.Type }
